@@ -519,6 +519,8 @@ fn decode_sized(d: &Desc, b: &[u8]) -> Result<Value, Reject> {
 pub struct Image {
     pub bytes: Vec<u8>,
     pub mask: Vec<bool>,
+    /// bytes of a sized enum's payload area that the active variant does not use
+    pub inactive: Vec<bool>,
     /// extent of the value (bytes beyond it are spare)
     pub extent: usize,
 }
@@ -540,7 +542,7 @@ pub fn encode(d: &Desc, v: &Value, n: usize, fill: u8) -> Result<Image, EncodeEr
 /// `zero_term`: FlexVec chains in their other documented form (every item sealed, a zero slot
 /// terminates) instead of the canonical "last item marked MAX".
 pub fn encode_opt(d: &Desc, v: &Value, n: usize, fill: u8, zero_term: bool) -> Result<Image, EncodeErr> {
-    let mut img = Image { bytes: vec![fill; n], mask: vec![false; n], extent: 0 };
+    let mut img = Image { bytes: vec![fill; n], mask: vec![false; n], inactive: vec![false; n], extent: 0 };
     let ext = enc(d, v, &mut img, 0, n, zero_term)?;
     img.extent = ext;
     Ok(img)
@@ -693,6 +695,12 @@ fn enc_sized(d: &Desc, v: &Value, img: &mut Image, at: usize) {
             let (offs, _) = c_offsets(&variants[*t]);
             for (i, f) in variants[*t].iter().enumerate() {
                 enc_sized(f, &vals[i], img, at + off + offs[i]);
+            }
+            let used_end = variants[*t].last().map(|f| off + offs[variants[*t].len() - 1] + f.size()).unwrap_or(off);
+            for i in at + used_end.max(*tag)..at + d.size() {
+                if !img.mask[i] {
+                    img.inactive[i] = true;
+                }
             }
         }
         _ => panic!("value {:?} does not match sized desc {:?}", v, d),
